@@ -35,6 +35,13 @@ def run():
              'CreateVm v1 %s c1 d1 v2=1 hard=0 secure=0' % kind, 'Hash v1 I1 key=K1', 'SetDataset v1 d1', 'Hash v1 I2 key=K1', 'DestroyVm v1',
              'CreateVm v1 %s c1 d1 v2=0 hard=0 secure=0' % ('IF' if kind == 'IL' else 'CF'), 'Hash v1 I1 key=K1', 'SetCache v1 c1', 'Hash v1 I2 key=K1', 'DestroyVm v1', 'ReleaseDataset d1', 'ReleaseCache c1']
         scens.append({'text': '\n'.join(t) + '\n', 'ks': 0, 'iset': 1, 'full': True})
+    # object histories in which a VM outlives the cache it was bound to (release, a new cache at the same struct address with its memory
+    # elsewhere, same key, randomx_vm_set_cache): the VM must read the NEW memory - the old block is inaccessible in this harness
+    directed = json.load(open(os.path.join(vlib.VERIF, 'lib', 'c03_directed.json')))
+    for hi in (0, 1, 8, 9):
+        scens.append({'text': apiscen.to_text(directed[hi], {'cachejit': 1, 'argon': 0, 'hard': hi % 2, 'secure': 1 if hi >= 8 else 0}), 'ks': 0, 'iset': 0})
+    for kind in ('IL', 'CL'):
+        scens.append({'text': apiscen.to_text(apiscen.same_struct_new_memory_history(kind), {'cachejit': 1, 'argon': 0, 'hard': 0, 'secure': 0}), 'ks': 0, 'iset': 0})
     tabs = apiscen.fresh_tables(sorted(set((s['ks'], s['iset']) for s in scens)), lambda c: ['IL', 'CL', 'IF', 'CF'] if c == (0, 1) else ['IL', 'CL'], os.path.join(wd, 'fresh'))
     for s in scens:
         s['data'], s['fresh'] = tabs[(s['ks'], s['iset'])]
